@@ -19,39 +19,204 @@ fn run_e1(c: &mut Check, section: &str, cases: u64, property: &'static str, also
     c.shrink_iters = 150;
     replay_saved_inputs(c, property, also, nt);
     c.section_threads(section, cases, threads, strat, move |case: &Case, _env| {
+        let t0 = std::time::Instant::now();
         let res = run_case(case, TIMEOUT_S);
+        let dt = t0.elapsed().as_secs_f64();
+        if dt > 1.0 && std::env::var("VH_TIMING").is_ok() {
+            eprintln!("slow case {:.1}s: plan={} heap={} opts={:?} ops={} churn={:?}", dt, case.plan, case.heap_kb, case.opts, case.ops.len(), case.ops.iter().filter_map(|o| if let Op::Churn { kb, .. } = o { Some(*kb) } else { None }).collect::<Vec<_>>());
+        }
         outcome_for(property, also, res, &is_known, &nt)
     });
 }
 
+const COMMON: &str = "cases = generated mutator programs (alloc / barriered writes / root ops / region copies / GC requests / churn ...) x plan x 4 metadata layout variants x 1-4 workers x 1-3 mutators x plan options, each run in its own process against real MMTk with the shadow-heap oracle; distinct by structural hash of the case; ";
+
 pub fn entries() -> Vec<Entry> {
     vec![
-        Entry { id: "C01", rule: "cases = generated mutator programs x plan x layout variant x workers x options, each run in its own process against real MMTk with a lock-step shadow-heap walk after every pause; non-trivial = >=1 GC with >=8 reachable objects and (>=1 object moved or >=1 unreachable object at GC time) and >=1 cross-space edge; distinct by structural hash of the case", run: c01 },
+        Entry { id: "C01", rule: "generated programs x 11 plans; lock-step shadow-heap walk after every pause; non-trivial = >=1 GC with >=8 reachable objects and (>=1 object moved or >=1 unreachable object at GC time) and >=1 cross-space edge; distinct by structural hash of the case", run: c01 },
+        Entry { id: "C02", rule: "allocation-heavy generated programs x 11 plans; every successful alloc result must be disjoint from the interval set {reachable objects at their current addresses} + {every allocation since the last pause}; non-trivial = >=1 allocation below the pre-GC high-water mark (recycled memory) after >=1 GC with survivors", run: c02 },
+        Entry { id: "C03", rule: "generated legal (size, align, offset, semantics) tuples from a boundary-biased size table x 11 plans x alignment variants, interleaved with GCs and dirtying of every object; oracle = non-zero, (A+offset)%align==0, inside the space the plan maps the semantics to, all bytes zero; non-trivial = align > MIN and offset != 0, or recycled memory", run: c03 },
+        Entry { id: "C04", rule: "generated programs with Immortal/Los/NonMoving allocations, pin/unpin, pinning and transitively pinning roots, defrag options; oracle = address unchanged across every pause while pinned/non-moving, unreachable immortal objects stay intact; non-trivial = >=1 moving GC while a fixed object was live, or an unreachable immortal object checked after >=2 GCs", run: c04 },
+        Entry { id: "C05", rule: "GenCopy/GenImmix/StickyImmix programs that build old objects, then store young objects reachable only through barriered writes / region copies into old objects, then nursery GCs; oracle = shadow walk; non-trivial = >=1 nursery GC and >=1 young object reachable only via an old->young edge", run: c05 },
+        Entry { id: "C06", rule: "programs with soft/weak/phantom reference objects registered at creation, finalizer registrations, late/never pops; oracle = stage-ordered reachability model (safety at every GC, completeness after forced exhaustive full-heap GCs); non-trivial = (>=1 reference cleared and >=1 retained) or >=1 finalizable object popped", run: c06 },
+        Entry { id: "C07", rule: "programs ending episodes with forced exhaustive GCs on every plan (vo_bit build); oracle = enumerate_objects multiset == survivors, is_mmtk_object Some for survivors and None for reclaimed/moved-away addresses; non-trivial = >=1 reclaimed address checked and survivors in >=2 spaces", run: c07 },
+        Entry { id: "C08", rule: "probe points after allocation and after GCs: word-aligned addresses around/inside objects for is_mmtk_object, interior pointers x max_search_bytes {1,2,7,8,9,d,d+1,d+2,4096,1MiB} for find_object_from_internal_pointer, addresses outside the heap; oracle = shadow interval map; non-trivial probe = unaligned pointer, pointer >= 4096 bytes into the object, or limit <= distance", run: c08 },
+        Entry { id: "C09", rule: "allocate-drop-GC cycles (10..40 cycles quick) with generated size mixes incl. LOS/non-moving/weak/finalizers for every collecting plan; oracle = no out_of_memory, used_bytes after cycle k <= max(first three) + one chunk, free+used <= total; non-trivial = >=10 cycles", run: c09 },
+        Entry { id: "C10", rule: "heaps filled with reachable data, then alloc_with_options over all 8 flag combinations x size classes (small..usize::MAX) x semantics; oracle over callback counters: no OOM call when disallowed, no block_for_gc when not at safepoint, OOM only after a GC (or obviously too large), null on OOM; non-trivial = >=1 call returned null or called out_of_memory", run: c10 },
+        Entry { id: "C12", rule: "ConcurrentImmix programs sized to cross the concurrent trigger, overwriting references of snapshot objects / region copies / new allocations during marking; oracle = shadow walk after every pause + survivors of snapshot; non-trivial = >=1 pointer overwrite while concurrent marking was in progress and >=2 pauses", run: c12 },
+        Entry { id: "C13", rule: "programs with VM-side ephemeron tables incl. dependency chains of depth 0..6; oracle = is_reachable of the model's retained set at the first process_weak_refs call, closure of values traced in round j reachable at round j+1, true => another call / false => none, forward_weak_refs exactly when the plan needs it; non-trivial = >=3 rounds in one GC", run: c13 },
+        Entry { id: "C16", rule: "histories of GCs and fork cycles (prepare_to_fork, join every worker thread, after_fork) x 1-4 workers; oracle = every worker exits exactly once, after_fork spawns N workers with ordinals 0..N-1, later GCs satisfy the shadow walk; non-trivial = >=2 fork cycles with GCs in between", run: c16 },
+        Entry { id: "C31", rule: "address probes (0, heap/space edges +-8, 2^47, usize::MAX, 2000 uniform in-heap, 200 uniform 48-bit, object starts/ends) per plan after generated allocation/GC activity; oracle = object addresses resolve to their space, outside-heap addresses resolve to the empty SFT and are not in MMTk spaces, SFT non-empty => VM map descriptor is that space's; non-trivial = >=1 probe within 4 MiB of a heap edge", run: c31 },
+        Entry { id: "C34", rule: "Immix-family programs with many GCs (nursery/full/defrag mixes, straddling objects); after every marking pause every hole get_next_available_lines yields for every allocated block is disjoint from lines overlapped by shadow-live objects; block-state byte round trip for all 256 bytes; non-trivial = >=1 live object straddling >=3 lines in a space with holes", run: c34 },
     ]
 }
 
+fn labels_common(v: &Verdict) -> Vec<&'static str> {
+    let mut l = vec![];
+    if cv(v, "gc") > 0 {
+        l.push("has_gc");
+    }
+    if cv(v, "moved") > 0 {
+        l.push("moved");
+    }
+    if cv(v, "gc_nursery") > 0 {
+        l.push("nursery_gc");
+    }
+    if cv(v, "cross_space_edge") > 0 {
+        l.push("cross_space_edge");
+    }
+    if cv(v, "alloc_null") > 0 {
+        l.push("alloc_null");
+    }
+    l
+}
+
 fn c01(c: &mut Check) {
+    let _ = COMMON;
     let n = c.tier.pick(1600, 60000);
     run_e1(c, "all-plans", n, "C01", &["C17"], || gen::case(&PLANS, Mix::BASIC, "C01", 120), |v| {
         let nt = cv(v, "gc") >= 1 && cv(v, "gc_with_ge8_live") >= 1 && (cv(v, "moved") > 0 || cv(v, "unreachable_at_gc") > 0) && cv(v, "cross_space_edge") > 0;
-        let mut l = vec![];
-        if cv(v, "gc") > 0 {
-            l.push("has_gc");
+        (nt, labels_common(v))
+    });
+}
+
+fn c02(c: &mut Check) {
+    let n = c.tier.pick(1400, 60000);
+    run_e1(c, "allocation-heavy", n, "C02", &[], || gen::case(&PLANS, Mix { churn_weight: 10, gc_weight: 8, ..Mix::BASIC }, "C02", 100), |v| {
+        let nt = cv(v, "alloc_recycled") > 0 && cv(v, "gc") >= 1 && cv(v, "live_at_end") >= 1;
+        (nt, labels_common(v))
+    });
+}
+
+fn c03(c: &mut Check) {
+    let n = c.tier.pick(1400, 60000);
+    run_e1(c, "alloc-tuples", n, "C03", &[], || gen::case(&PLANS, Mix { churn_weight: 2, gc_weight: 4, region_copy: false, ..Mix::BASIC }, "C03", 140), |v| {
+        let nt = cv(v, "alloc_align_offset") > 0 || cv(v, "alloc_recycled") > 0;
+        (nt, labels_common(v))
+    });
+}
+
+fn c04(c: &mut Check) {
+    let n = c.tier.pick(1400, 60000);
+    run_e1(c, "fixed-objects", n, "C04", &[], || gen::case(&PLANS, Mix { pins: true, ..Mix::BASIC }, "C04", 120), |v| {
+        let nt = cv(v, "c04_moving_gc_with_fixed_object") > 0 || cv(v, "c04_unreachable_immortal_checked") > 0;
+        let mut l = labels_common(v);
+        if cv(v, "pin") > 0 {
+            l.push("pinned");
         }
-        if cv(v, "moved") > 0 {
-            l.push("moved");
-        }
-        if cv(v, "gc_nursery") > 0 {
-            l.push("nursery_gc");
-        }
-        if cv(v, "cross_space_edge") > 0 {
-            l.push("cross_space_edge");
-        }
-        if cv(v, "alloc_null") > 0 {
-            l.push("alloc_null");
+        if cv(v, "pinning_root") > 0 {
+            l.push("pinning_root");
         }
         (nt, l)
     });
+}
+
+const GEN_PLANS: [&str; 3] = ["GenCopy", "GenImmix", "StickyImmix"];
+
+fn c05(c: &mut Check) {
+    let n = c.tier.pick(1200, 50000);
+    run_e1(c, "old-to-young", n, "C05", &["C01"], || gen::case(&GEN_PLANS, Mix { old_young: 14, gc_weight: 10, churn_weight: 2, ..Mix::BASIC }, "C05", 140), |v| {
+        let nt = cv(v, "gc_nursery") > 0 && cv(v, "young_only_via_old") > 0;
+        let mut l = labels_common(v);
+        if cv(v, "region_old_to_young") > 0 {
+            l.push("region_copy_old_to_young");
+        }
+        (nt, l)
+    });
+}
+
+fn c06(c: &mut Check) {
+    let n = c.tier.pick(1400, 60000);
+    run_e1(c, "weak-and-finalizers", n, "C06", &[], || gen::case(&COLLECTING_PLANS, Mix { weak: true, finalizers: true, gc_weight: 10, ..Mix::BASIC }, "C06", 120), |v| {
+        let nt = (cv(v, "ref_cleared") > 0 && cv(v, "ref_retained") > 0) || cv(v, "finalized_popped") > 0;
+        let mut l = labels_common(v);
+        if cv(v, "ref_cleared") > 0 {
+            l.push("ref_cleared");
+        }
+        if cv(v, "finalized_popped") > 0 {
+            l.push("finalized");
+        }
+        (nt, l)
+    });
+}
+
+fn c07(c: &mut Check) {
+    let n = c.tier.pick(1200, 50000);
+    run_e1(c, "exhaustive-gc-enumeration", n, "C07", &[], || gen::case(&COLLECTING_PLANS, Mix { nursery_gc: false, gc_weight: 10, finalizers: true, ..Mix::BASIC }, "C07", 100), |v| {
+        (cv(v, "c07_nontrivial") > 0, labels_common(v))
+    });
+}
+
+fn c08(c: &mut Check) {
+    let n = c.tier.pick(700, 30000);
+    run_e1(c, "lookups", n, "C08", &[], || gen::case(&PLANS, Mix { probes: 10, churn_weight: 1, ..Mix::BASIC }, "C08", 80), |v| {
+        (cv(v, "c08_internal_probe_nontrivial") > 0, labels_common(v))
+    });
+}
+
+fn c09(c: &mut Check) {
+    let n = c.tier.pick(120, 3000);
+    let cycles = c.tier.pick(30u32, 300u32);
+    let _ = cycles;
+    run_e1(c, "alloc-drop-gc-cycles", n, "C09", &[], || gen::c09_case(false), |v| (cv(v, "c09_cycles") >= 10, labels_common(v)));
+}
+
+fn c10(c: &mut Check) {
+    let n = c.tier.pick(900, 40000);
+    run_e1(c, "alloc-options", n, "C10", &[], || gen::c10_case(), |v| {
+        let nt = cv(v, "oom_called") > 0 || cv(v, "alloc_opts_null") > 0;
+        let mut l = labels_common(v);
+        if cv(v, "oom_obvious") > 0 {
+            l.push("obvious_oom");
+        }
+        (nt, l)
+    });
+}
+
+const CONC: [&str; 1] = ["ConcurrentImmix"];
+
+fn c12(c: &mut Check) {
+    let n = c.tier.pick(800, 40000);
+    run_e1(c, "concurrent-marking", n, "C12", &["C01", "C02"], || gen::c12_case(), |v| {
+        let nt = cv(v, "overwrite_during_marking") > 0 && cv(v, "gc") >= 2;
+        let mut l = labels_common(v);
+        if cv(v, "pause_started_concurrent_marking") > 0 {
+            l.push("concurrent_marking_started");
+        }
+        (nt, l)
+    });
+    let _ = CONC;
+}
+
+fn c13(c: &mut Check) {
+    let n = c.tier.pick(1000, 40000);
+    run_e1(c, "ephemerons", n, "C13", &[], || gen::case(&COLLECTING_PLANS, Mix { ephemerons: true, gc_weight: 10, churn_weight: 1, ..Mix::BASIC }, "C13", 100), |v| {
+        (cv(v, "weak_rounds_ge3") > 0, labels_common(v))
+    });
+}
+
+fn c16(c: &mut Check) {
+    let n = c.tier.pick(500, 20000);
+    run_e1(c, "fork-cycles", n, "C16", &["C01"], || gen::case(&COLLECTING_PLANS, Mix { fork: true, gc_weight: 10, churn_weight: 1, big: false, ..Mix::BASIC }, "C16", 60), |v| {
+        (cv(v, "fork_cycle") >= 2 && cv(v, "gc") >= 2, labels_common(v))
+    });
+}
+
+fn c31(c: &mut Check) {
+    let n = c.tier.pick(400, 20000);
+    run_e1(c, "address-resolution", n, "C31", &[], || gen::case(&PLANS, Mix { probes: 6, churn_weight: 1, ..Mix::BASIC }, "C31", 60), |v| {
+        (cv(v, "c31_edge_probe") > 0, labels_common(v))
+    });
+}
+
+const IMMIX_PLANS: [&str; 4] = ["Immix", "GenImmix", "StickyImmix", "ConcurrentImmix"];
+
+fn c34(c: &mut Check) {
+    let n = c.tier.pick(500, 20000);
+    run_e1(c, "line-reuse", n, "C34", &["C02"], || gen::c34_case(), |v| {
+        (cv(v, "c34_straddling_object_next_to_holes") > 0 && cv(v, "gc") >= 3, labels_common(v))
+    });
+    let _ = IMMIX_PLANS;
 }
 
 /// Replay the saved inputs of this property: every file under corpus/<ID>/ (regression inputs of
